@@ -27,7 +27,10 @@ Catalogue == <<
    << Req(<<"j">>, <<"w">>), Req(<<"k">>, <<>>) >>,
    << Req(<<"j", "k">>, <<"r">>), Req(<<"b">>, <<>>) >>,
    << Req(<<"b">>, <<>>), Req(<<"k">>, <<>>), Req(<<"j">>, <<"r">>) >>,
-   << Req(<<"k", "o">>, <<"r">>), Req(<<"j", "b">>, <<"w">>) >> >>
+   << Req(<<"k", "o">>, <<"r">>), Req(<<"j", "b">>, <<"w">>) >>,
+   \* a scheme recurring in a later alternative (with other required scopes)
+   << Req(<<"j">>, <<"w">>), Req(<<"j", "k">>, <<"r">>) >>,
+   << Req(<<"k">>, <<>>), Req(<<"b", "k">>, <<>>) >> >>
 \* TLC cannot compare strings with tuples: levels are records
 Level == [kind: {"unset", "nosec"}, idx: {0}] \cup [kind: {"reqs"}, idx: 1..Len(Catalogue)]
 ReqsOf(lv) == IF lv.kind = "reqs" THEN Catalogue[lv.idx] ELSE <<>>
